@@ -54,6 +54,11 @@ THEOREMS = [NS + n for n in [
     "keyed_sort_needs_injective_key",
     "sort_calls_ok",
     "mutated_class_tables_ok",
+    "try_parse_restores_level_all_exits",
+    "try_parse_restore_needs_finally",
+    "parser_temporary_writes_restored_in_finally",
+    "parser_reuse_eq_fresh_all_fields",
+    "generator_temporary_writes_restore_places",
     "tsort_inner_order_independent",
     "absorb_order_independent",
     "absorbed_superset_order_independent",
@@ -271,6 +276,28 @@ def process_wide_state():
     return sorted(out)
 
 
+def restore_places(funcs, fields):
+    """for every function that assigns `self.F` (F a field that no reset touches): where is the assignment that puts a saved
+    value back?  "finally" = inside a `finally:` block (runs on every exit), "plain" = ordinary code (skipped when an
+    exception propagates), "none" = the function never restores.  (function, field, place)"""
+    out = []
+    for name, fn in funcs:
+        stores = [n for n in ast.walk(fn) if isinstance(n, ast.Attribute) and isinstance(n.ctx, ast.Store)
+                  and isinstance(n.value, ast.Name) and n.value.id in ("self", "generator", "parser") and n.attr in fields]
+        for f in sorted({n.attr for n in stores}):
+            in_finally = set()
+            for t in ast.walk(fn):
+                if isinstance(t, ast.Try):
+                    for st in t.finalbody:
+                        for n in ast.walk(st):
+                            if isinstance(n, ast.Attribute) and isinstance(n.ctx, ast.Store) and n.attr == f:
+                                in_finally.add(id(n))
+            mine = [n for n in stores if n.attr == f]
+            place = "finally" if any(id(n) in in_finally for n in mine) else ("plain" if len(mine) >= 2 else "none")
+            out.append((name, f, place))
+    return sorted(out)
+
+
 def dialect_fields(chk=None):
     """Dialect.__init__'s assignments and the instance fields any other method of a dialect class writes"""
     init, written = [], set()
@@ -362,6 +389,13 @@ def mutated_class_tables():
                     tgt, how = n.func.value, n.func.attr
                 elif isinstance(n, ast.Subscript) and isinstance(n.ctx, (ast.Store, ast.Del)):
                     tgt, how = n.value, "setitem" if isinstance(n.ctx, ast.Store) else "delitem"
+                elif isinstance(n, ast.Attribute) and isinstance(n.ctx, (ast.Store, ast.Del)) and UPPER_RE.match(n.attr):
+                    # `other_cls.TABLE = …`: a table of ANOTHER class replaced after that class was created (the class under
+                    # construction — klass / cls — and instances — self — are not "another class")
+                    c0 = chain(n)
+                    if c0 and len(c0) >= 2 and c0[0] not in ("klass", "cls", "self", "mcs"):
+                        out.add((rel, where, ".".join(c0), "rebind"))
+                    continue
                 if tgt is None:
                     continue
                 ch = chain(tgt)
@@ -425,6 +459,23 @@ def translate(chk) -> str:
         L.append(f"def {k} : List (String × String) := " + lean_list("(" + lean_str(a) + ", " + lean_str(b) + ")" for a, b in r[k]))
     for k in ("parserWritten", "tokenizerWritten", "generatorWritten"):
         L.append(f"def {k} : List String := " + lean_list(lean_str(a) for a in r[k]))
+    # fields that the per-call reset does not touch, and how the methods that overwrite them temporarily hand them back
+    P = _cls("sqlglot/parser.py", "Parser")
+    pfuncs = [("Parser." + f.name, f) for f in (P.body if P else []) if isinstance(f, ast.FunctionDef) and f.name not in ("__init__", "reset")]
+    for path in sorted(glob.glob(os.path.join(REPO, "sqlglot", "parsers", "*.py"))):
+        for c in ast.parse(open(path, encoding="utf-8").read()).body:
+            if isinstance(c, ast.ClassDef):
+                pfuncs += [(c.name + "." + f.name, f) for f in c.body if isinstance(f, ast.FunctionDef) and f.name != "__init__"]
+    pconfig = {a for a, _ in r["parserInit"]} - {a for a, _ in r["parserReset"]}
+    G = _cls("sqlglot/generator.py", "Generator")
+    gfuncs = [("Generator." + f.name, f) for f in (G.body if G else []) if isinstance(f, ast.FunctionDef) and f.name not in ("__init__", "generate")]
+    for path in sorted(glob.glob(os.path.join(REPO, "sqlglot", "generators", "*.py"))):
+        for c in ast.walk(ast.parse(open(path, encoding="utf-8").read())):
+            if isinstance(c, ast.FunctionDef) and c.name != "__init__":
+                gfuncs.append((os.path.basename(path)[:-3] + ":" + c.name, c))
+    gconfig = {a for a, _ in r["generatorInit"]} - {a for a, _ in r["generatorReset"]}
+    for nm, rows in (("parserRestorePlaces", restore_places(pfuncs, pconfig)), ("generatorRestorePlaces", restore_places(gfuncs, gconfig))):
+        L.append(f"def {nm} : List (String × String × String) := " + lean_list("(" + ", ".join(lean_str(x) for x in e) + ")" for e in rows))
     dinit, dwritten = dialect_fields(chk)
     L.append("def dialectInit : List (String × String) := " + lean_list("(" + lean_str(a) + ", " + lean_str(b) + ")" for a, b in dinit))
     L.append("def dialectWritten : List String := " + lean_list(lean_str(a) for a in dwritten))
@@ -709,6 +760,86 @@ def worker_main(spec_path):
     json.dump(out, sys.stdout)
 
 
+def forkserver_main(spec_path):
+    """imports sqlglot once, then answers every group of cases in a freshly forked child: each child starts from the state
+    of a process that has just executed `import sqlglot` and nothing else (what a new process running the group would have)"""
+    import logging
+    import sqlglot  # noqa: F401
+    logging.getLogger("sqlglot").setLevel(logging.CRITICAL)
+    spec = json.load(open(spec_path))
+    results = []
+    for group in spec["groups"]:
+        r, w = os.pipe()
+        pid = os.fork()
+        if pid == 0:
+            os.close(r)
+            import signal
+
+            class _Timeout(Exception):
+                pass
+
+            def _alarm(signum, frame):
+                raise _Timeout()
+
+            signal.signal(signal.SIGALRM, _alarm)
+            out = {}
+            for cid, op, a in group:
+                signal.setitimer(signal.ITIMER_REAL, 8.0)
+                try:
+                    out[cid] = run_case(op, a)
+                except _Timeout:
+                    out[cid] = "EXC:Timeout"
+                except RecursionError:
+                    out[cid] = "EXC:RecursionError"
+                except Exception as e:  # noqa
+                    out[cid] = "EXC:" + type(e).__name__
+                finally:
+                    signal.setitimer(signal.ITIMER_REAL, 0)
+            with os.fdopen(w, "w") as f:
+                json.dump(out, f)
+            os._exit(0)
+        os.close(w)
+        with os.fdopen(r) as f:
+            data = f.read()
+        os.waitpid(pid, 0)
+        results.append(json.loads(data) if data else {})
+    json.dump(results, sys.stdout)
+
+
+def fork_run(groups, hashseed=0, servers=4):
+    """groups of cases, each answered in its own fresh (forked-after-import) process; returns one dict per group"""
+    if not groups:
+        return []
+    chunks = [groups[i::servers] for i in range(servers)]
+    procs = []
+    for ch in chunks:
+        if not ch:
+            procs.append(None)
+            continue
+        f = tempfile.NamedTemporaryFile("w", suffix=".json", delete=False)
+        json.dump({"groups": ch}, f)
+        f.close()
+        env = dict(os.environ, PYTHONHASHSEED=str(hashseed), PYTHONPATH=REPO, PYTHONDONTWRITEBYTECODE="1")
+        procs.append((subprocess.Popen([sys.executable, os.path.abspath(__file__), "--forkserver", f.name], stdout=subprocess.PIPE,
+                                       stderr=subprocess.PIPE, env=env), f.name))
+    outs = []
+    for pr in procs:
+        if pr is None:
+            outs.append([])
+            continue
+        p, path = pr
+        out, err = p.communicate(timeout=900)
+        os.unlink(path)
+        if p.returncode != 0:
+            raise HarnessError("C15 fork server failed: " + err.decode("utf-8", "replace")[-400:])
+        outs.append(json.loads(out.decode("utf-8")))
+    res = [None] * len(groups)
+    for si, ch in enumerate(chunks):
+        for j, _ in enumerate(ch):
+            res[si + j * servers] = outs[si][j]
+    return res
+
+
 # ------------------------------------------------------------------------------------------ case generators
 ATOMS = ["x.a = 1", "x.b > 2", "y.a < 3", "x.a = y.a", "x.c = 'k'", "y.b <> 4", "x.a IS NULL", "x.b = x.a", "y.d > '2020-01-01'", "x.a IN (1, 2)"]
 
@@ -924,15 +1055,15 @@ def pair_sweep(chk, width=8):
     involved = sorted({x for p in pairs for x in p})
     from vf.props import c14
     every = [d for d in c14.all_dialects() if d]
-    specs = [(None, x) for x in every] + [("*", x) for x in every] + [(a, b) for a, b in pairs] + [(b, a) for a, b in pairs]
+    # "after every dialect was imported and used": all of them in the thorough tier, a seeded sample in the quick one
+    star = every if not chk.quick else sorted(set(chk.rng.sample(every, 8)) | {"athena"})
+    alone = sorted(set(involved) | set(star))
+    specs = [(None, x) for x in alone] + [("*", x) for x in star] + [(a, b) for a, b in pairs] + [(b, a) for a, b in pairs]
     res = {}
-    for i in range(0, len(specs), width):
-        batch = []
-        for first, second in specs[i:i + width]:
-            case = [f"pair:{first}>{second}", "pair", {"first": first, "second": second, "corpus": PAIR_CORPUS, "sql": f"pair {first} {second}"}]
-            batch.append(((first, second), case, spawn([case], [0], 0)))
-        for key, case, (p, path) in batch:
-            res[key] = collect(p, path).get(case[0])
+    glist = [[[f"pair:{first}>{second}", "pair", {"first": first, "second": second, "corpus": PAIR_CORPUS, "sql": f"pair {first} {second}"}]]
+             for first, second in specs]
+    for (first, second), out in zip(specs, fork_run(glist, 0)):
+        res[(first, second)] = out.get(f"pair:{first}>{second}")
     found = []
     for (first, second), out in res.items():
         if first is None or out == res[(None, second)]:
@@ -946,12 +1077,16 @@ def pair_sweep(chk, width=8):
 
 
 def fresh_reference(cases, hashseed=0, width=8):
-    """each case alone in a brand-new process"""
+    """each case alone in a brand-new process (the probes of the failing-history group share one process per dialect: they
+    are valid statements, the reference must only be free of the FAILING statements)"""
+    groups: dict = {}
+    for c in cases:
+        if c[0].startswith("probe"):
+            groups.setdefault(c[2].get("read"), []).append(c)
+    glist = list(groups.values()) + [[c] for c in cases if not c[0].startswith(("probe", "fail"))]
     ref = {}
-    for i in range(0, len(cases), width):
-        batch = [(c, spawn([c], [0], hashseed)) for c in cases[i:i + width]]
-        for c, (p, path) in batch:
-            ref[c[0]] = collect(p, path).get(c[0])
+    for out in fork_run(glist, hashseed):
+        ref.update(out)
     return ref
 
 
@@ -1080,6 +1215,97 @@ def reuse_checks(chk, budget_s):
                              {"kind": "reuse", "component": component, "sql": sql, "dialect": d, "fresh": sa[:400], "reused": sb[:400]},
                              {"dialect": d or "", "class": cls})
 
+    def report_hist(component, history, probe, d, a, b, extra=""):
+        """a reuse difference that needs an earlier call (the history) on the same object"""
+        nonlocal found
+        found += 1
+        chk.report_violation(f"reuse:{component}:{abstract_sql(probe)}|after:{abstract_sql(history)}",
+                             f"a reused {component} answers {str(b)[:90]!r}, a fresh one {str(a)[:90]!r} {extra}",
+                             {"kind": "reuse-history", "component": component, "history": history, "sql": probe, "dialect": d,
+                              "extra": extra, "fresh": str(a)[:400], "reused": str(b)[:400]},
+                             {"dialect": d or "", "class": "after-exception"})
+
+    # --- a Parser that CRASHED (an internal exception escaping a speculative sub-parse) must still answer like a new one:
+    #     tree, errors list and the error_level attribute, for every error level
+    #     (Properties/C15.lean try_parse_restores_level_all_exits / try_parse_restore_needs_finally)
+    from sqlglot.errors import SqlglotError
+    PROBES = ["SELECT a FROM t WHERE", "SELECT CAST(a AS) FROM t", "SELECT a +, b FROM (SELECT 1", "SELECT 1"]
+    FORMS = ["SELECT a FROM t LIMIT {f}(1)", "SELECT a FROM t, {f}(1)", "SELECT a FROM t, {f}(x)", "SELECT a FROM t WHERE x IN ({f}())"]
+
+    def crashers(dia, limit, budget):
+        t1 = time.time()
+        names = sorted(dia.parser_class.FUNCTIONS)
+        rng.shuffle(names)
+        seeded = [x for x in ("VAR_MAP", "DATE_ADD", "HASHBYTES") if x in dia.parser_class.FUNCTIONS]
+        out = []
+        for f in seeded + names:
+            for form in FORMS:
+                sql = form.format(f=f)
+                try:
+                    with c14.watchdog(3.0):
+                        dia.parser(error_level=ErrorLevel.WARN).parse(dia.tokenize(sql), sql)
+                except SqlglotError:
+                    continue
+                except Exception:  # noqa  (IndexError / AttributeError / ValueError / … : C05's finding, our history)
+                    out.append(sql)
+                    break
+            if len(out) >= limit or time.time() - t1 > budget:
+                break
+        return out
+
+    def parse_obs(p, dia, sql):
+        r = p.parse(dia.tokenize(sql), sql)
+        return [c14.dump_tree(t) for t in r], [str(e) for e in p.errors]
+
+    for d in [None, "mysql", "tsql", rng.choice(dialects)]:
+        dia = Dialect.get_or_raise(d)
+        poison = crashers(dia, chk.pick(3, 12), chk.pick(1.5, 10.0))
+        chk.count("reuse:crash-histories", len(poison))
+        for bad_sql in poison:
+            for level in (ErrorLevel.IGNORE, ErrorLevel.WARN, ErrorLevel.RAISE, ErrorLevel.IMMEDIATE):
+                reused = dia.parser(error_level=level)
+                attempt(lambda: parse_obs(reused, dia, bad_sql))
+                lv_after = getattr(reused.error_level, "name", None)
+                differs = False
+                for probe in PROBES:
+                    n += 1
+                    a = attempt(lambda: parse_obs(dia.parser(error_level=level), dia, probe))
+                    b = attempt(lambda: parse_obs(reused, dia, probe))
+                    if a != b:
+                        report_hist("Parser", bad_sql, probe, d, a, b, f"(error_level={level.name}; the reused parser's error_level attribute is {lv_after})")
+                        differs = True
+                        break
+                if lv_after != level.name and not differs:
+                    report_hist("Parser", bad_sql, "<attribute error_level>", d, level.name, lv_after, f"(error_level={level.name}; the attribute itself)")
+                if differs or lv_after != level.name:
+                    break
+                chk.case(("reuse-after-crash", bad_sql, d, level.name), nontrivial=True)
+    # --- a Generator whose call was cut short by an UnsupportedError (IMMEDIATE) must still answer like a new one
+    UDFS = ["CREATE FUNCTION f(x ARRAY<INT>, y TIMESTAMP WITH TIME ZONE) RETURNS INT AS 'SELECT 1'",
+            "CREATE FUNCTION f(x MAP<TEXT, INT>, y UUID, z INTERVAL) RETURNS INT AS 'SELECT 1'",
+            "SELECT JSON_VALUE(x, '$.a b'), JSON_EXTRACT_SCALAR(y, '$.c') FROM t QUALIFY ROW_NUMBER() OVER (ORDER BY a) = 1"]
+    for wr in ["singlestore", "dremio", "bigquery", rng.choice(dialects), rng.choice(dialects)]:
+        dia = Dialect.get_or_raise(wr)
+        for bad_sql in UDFS:
+            tree = attempt(lambda: sqlglot.parse_one(bad_sql))
+            if isinstance(tree, str):
+                continue
+            for ident in (True, False):
+                opts = {"unsupported_level": ErrorLevel.IMMEDIATE, "identify": ident}
+                reused = dia.generator(**opts)
+                first = attempt(lambda: reused.generate(tree))
+                if not str(first).startswith("EXC:UnsupportedError"):
+                    continue
+                chk.count("reuse:generator-cut-short")
+                for probe in ("SELECT a, \"b c\" FROM t", "SELECT JSON_VALUE(x, '$.a b') FROM t"):
+                    ptree = sqlglot.parse_one(probe)
+                    n += 1
+                    a = attempt(lambda: dia.generator(**opts).generate(ptree))
+                    b = attempt(lambda: reused.generate(ptree))
+                    if a != b:
+                        report_hist("Generator", bad_sql, probe, wr, a, b, f"(unsupported_level=IMMEDIATE, identify={ident})")
+                        break
+
     ALIAS_SQL = ["SELECT * FROM t AS (a, b)", "SELECT * FROM (SELECT 1) AS (a)", "SELECT * FROM UNNEST(x) AS (a)"]
     # witness templates first (Properties/C15.lean generator_next_name_snapshot_witness / generator_next_name_restarts)
     for sql in ALIAS_SQL:
@@ -1182,7 +1408,10 @@ def search(chk, hints, budget_s):
         configs.append((hs, o))
     configs.append((rng.randrange(1, 4000000), list(reversed(ids))))
     configs.append((0, sorted(ids, key=lambda i: (cases[i][1], rng.random()))))  # same seed, other order: history only
+    phase: dict = {}
+    chk.cov["search_phase_s"] = phase
     diffs, outs = sweep(chk, cases, configs)
+    phase["sweep"] = round(time.time() - t0, 1)
     by_id = {c[0]: c for c in cases}
     fam_ids = {c[0] for c in family}
     reported: set = set()
@@ -1242,6 +1471,7 @@ def search(chk, hints, budget_s):
                              {"kind": "sweep", "case": small, "original": c[2]["sql"], "hashseeds": [tie_seeds[0], tie_seeds[first]],
                               "outputs": [str(vals[0])[:300], str(vals[first])[:300]], "seeds_by_output": split, "isolated_repro": True},
                              {"op": c[1], "why": "hash-seed"})
+    phase["sweep+tie"] = round(time.time() - t0, 1)
     # --- related dialect pairs: B after A vs B alone (class tables copied / shared between dialect classes)
     pair_found = pair_sweep(chk)
     for first, second, q, alone, after in pair_found[:3]:
@@ -1249,14 +1479,15 @@ def search(chk, hints, budget_s):
                              f"dialect {second} answers {after[:100]!r} after {'every other dialect' if first == '*' else 'dialect ' + first} was used in the same process, {alone[:100]!r} in a fresh process",
                              {"kind": "pair", "first": first, "second": second, "sql": q, "fresh": alone[:400], "after": after[:400]},
                              {"op": "pair", "why": "history"})
+    phase["+pairs"] = round(time.time() - t0, 1)
     # --- every family case against a brand-new process: what ran earlier in the same process must not matter
     ref = fresh_reference(family, configs[0][0])
     hist_found = 0
     for c in family:
         chk.count("fresh-ref:" + c[1])
         cid = c[0]
-        if cid in reported or hist_found >= 3:
-            continue  # already reported above / enough replays
+        if cid in reported or hist_found >= 3 or cid not in ref:
+            continue  # already reported above / enough replays / a failing history statement (no reference of its own)
         for ci, (hs, order) in enumerate(configs):
             got = outs[ci].get(cid)
             if got == ref[cid]:
@@ -1281,7 +1512,9 @@ def search(chk, hints, budget_s):
                 {"kind": "history", "history": hist, "case": c, "hashseed": hs, "fresh": str(ref[cid])[:400], "in_history": str(got)[:400]},
                 {"op": c[1], "why": "history"})
             break
+    phase["+fresh-ref"] = round(time.time() - t0, 1)
     n, found = reuse_checks(chk, max(4.0, budget_s - (time.time() - t0)))
+    phase["+reuse"] = round(time.time() - t0, 1)
     chk.search_info = {"ran": True, "budget_s": budget_s, "sweep_cases": len(cases), "subprocesses": len(configs),
                        "family_cases_vs_fresh_process": len(family), "tie_family_cases": len(tie), "tie_family_hashseeds": tie_seeds,
                        "tie_family_differences": len(tdiffs), "dialect_pair_differences": len(pair_found), "history_differences": hist_found,
@@ -1351,6 +1584,36 @@ def replay(path: str) -> int:
     import sqlglot
     from sqlglot.dialects.dialect import Dialect
     dia = Dialect.get_or_raise(r["dialect"])
+    if r["kind"] == "reuse-history":
+        import logging
+        from sqlglot.errors import ErrorLevel
+        logging.getLogger("sqlglot").setLevel(logging.CRITICAL)
+        m = re.search(r"(?:error_level|unsupported_level)=(\w+)", r.get("extra", ""))
+        level = ErrorLevel[m.group(1)] if m else ErrorLevel.WARN
+
+        def obs(fn):
+            try:
+                return fn()
+            except Exception as e:  # noqa
+                return "EXC:" + type(e).__name__ + ":" + str(e)[:150]
+
+        if r["component"] == "Parser":
+            reused = dia.parser(error_level=level)
+            obs(lambda: reused.parse(dia.tokenize(r["history"]), r["history"]))
+            if r["sql"].startswith("<attribute"):
+                a, b = level.name, reused.error_level.name
+            else:
+                a = obs(lambda: [repr(t) for t in dia.parser(error_level=level).parse(dia.tokenize(r["sql"]), r["sql"])])
+                b = obs(lambda: [repr(t) for t in reused.parse(dia.tokenize(r["sql"]), r["sql"])])
+        else:
+            ident = "identify=True" in r.get("extra", "")
+            opts = {"unsupported_level": ErrorLevel.IMMEDIATE, "identify": ident}
+            reused = dia.generator(**opts)
+            obs(lambda: reused.generate(sqlglot.parse_one(r["history"])))
+            pt = sqlglot.parse_one(r["sql"])
+            a, b = obs(lambda: dia.generator(**opts).generate(pt)), obs(lambda: reused.generate(pt))
+        print("replay:", f"VIOLATES: fresh {str(a)[:120]!r}, reused after the history {str(b)[:120]!r}" if a != b else "holds")
+        return 1 if a != b else 0
     if r["component"] == "Generator":
         tree = sqlglot.parse_one(r["sql"])
         g = dia.generator()
@@ -1364,3 +1627,5 @@ def replay(path: str) -> int:
 if __name__ == "__main__":
     if len(sys.argv) == 3 and sys.argv[1] == "--worker":
         worker_main(sys.argv[2])
+    elif len(sys.argv) == 3 and sys.argv[1] == "--forkserver":
+        forkserver_main(sys.argv[2])
